@@ -21,11 +21,11 @@ from ..core import Suite, Ctx
 
 ID = 'C20'
 RULE = ("exhaustive: every snake_case name of 1-3 words, each word 2-3 letters over the alphabet 'aiz' "
-        "(47 988 names) x 5 styles x 5 styles; random: 1-5 words of 2-8 ASCII lowercase letters, "
+        "(47 988 names) x 5 styles x 5 styles; random: 1-5 words of 2-8 ASCII lowercase letters; 1-4 words of Latin-1 / Cyrillic / Greek lowercase letters; "
         "ill-formed names with leading/trailing/doubled separators, and classes with rename=style. "
         "Non-trivial = a name of at least two words (word splitting actually matters); distinct by name.")
 ASSUMPTIONS = [
-    "names are ASCII (the splitter's capital-letter regex is [A-Z]; the statement says lowercase alphabetic words)",
+    "alphabets: ASCII (exhaustive sweep and random), and Latin-1 / Cyrillic / Greek lowercase letters whose case mapping is one-to-one and context-free (random); letters such as \u00df, dotless i, long s, ligatures and Greek sigma cannot be reversible under Python's str.upper / lower and are outside the domain",
     "canonical forms are the ones the statement spells out: a_b, A_B, a-b, aB, AB with capitalised words",
 ]
 
@@ -136,7 +136,24 @@ def check_injective(style: str, ctx: Ctx) -> None:
 # ---- random search ----------------------------------------------------------
 
 word = st.text(alphabet='abcdefghijklmnopqrstuvwxyz', min_size=2, max_size=8)
+
+
+def _simple_case(ch: str) -> bool:
+    """Lowercase letters whose case mapping is one-to-one and context-free (so ß, ı, ſ, ligatures, Greek sigma are out)."""
+    u = ch.upper()
+    return (ch.isalpha() and ch.islower() and len(u) == 1 and u.isupper() and u.lower() == ch and ch.title() == u
+            and (ch + ch).upper().lower() == ch + ch and ('a' + ch).title() == 'A' + ch)
+
+
+ALPHABETS = {
+    'latin1': ''.join(c for c in map(chr, range(0xC0, 0x100)) if _simple_case(c)),
+    'cyrillic': ''.join(c for c in map(chr, range(0x430, 0x460)) if _simple_case(c)),
+    'greek': ''.join(c for c in map(chr, range(0x3B1, 0x3CA)) if _simple_case(c) and c not in 'σς'),
+}
+# words of one alphabet (or ASCII) each; a name may mix alphabets between words
+uword = st.sampled_from(sorted(ALPHABETS)).flatmap(lambda a: st.text(alphabet=ALPHABETS[a], min_size=2, max_size=6))
 names = st.lists(word, min_size=1, max_size=5)
+unames = st.lists(st.one_of(uword, uword, word), min_size=1, max_size=4)
 
 
 def check_random(case: t.Any, ctx: Ctx) -> None:
@@ -233,6 +250,7 @@ def suites(tier: str) -> t.List[Suite]:
         Suite('sweep', check_sweep, cases=sweep_cases, exhaustive=True, budget_s=600),
         Suite('injective', check_injective, cases=injectivity_cases, exhaustive=True, budget_s=600),
         Suite('random', check_random, strategy=lambda: names, examples=20000 if big else 1500, budget_s=300 if big else 30),
+        Suite('non-ascii', check_random, strategy=lambda: unames, examples=10000 if big else 800, budget_s=200 if big else 20),
         Suite('bad', check_bad, strategy=bad_names, examples=5000 if big else 500, budget_s=120 if big else 20),
         Suite('class', check_class, strategy=class_cases, examples=3000 if big else 200, budget_s=300 if big else 30),
     ]
